@@ -23,7 +23,9 @@ import (
 	"encoding/json"
 	"errors"
 	"fmt"
+	"runtime"
 	"sort"
+	"sync"
 
 	mqtt "github.com/at-wat/mqtt-go"
 )
@@ -249,6 +251,74 @@ func filterMuxCheck(res *filterResult, add func(filterMismatch), gi, mi int, g *
 			}
 			res.Handles++
 			filterVerdict(add, m, err, mx.V[i])
+		}
+		// overlapping dispatch (a mux behind ServeAsync, or handlers that dispatch themselves): every message still reaches
+		// exactly the handlers whose filter matches ITS topic, whatever other message is being dispatched at the same time
+		if len(mx.Regs) >= 2 && len(mx.Regs) <= 8 && len(g.Topics) >= 2 && mi%4 == 0 {
+			nt := len(g.Topics)
+			if nt > 6 {
+				nt = 6
+			}
+			var cmu sync.Mutex
+			got := map[[2]int]int{} // (handler, topic index) -> calls
+			tindex := map[string]int{}
+			for j := 0; j < nt; j++ {
+				tindex[g.Topics[j]] = j
+			}
+			mux3 := &mqtt.ServeMux{}
+			for i, f := range mx.Regs {
+				idx := i + 1
+				_ = mux3.HandleFunc(f, func(m *mqtt.Message) {
+					runtime.Gosched()
+					cmu.Lock()
+					j, ok := tindex[m.Topic]
+					if !ok {
+						j = -1
+					}
+					got[[2]int{idx, j}]++
+					cmu.Unlock()
+				})
+			}
+			const reps = 40
+			var wg sync.WaitGroup
+			for j := 0; j < nt; j++ {
+				if _, dup := tindex[g.Topics[j]]; dup && tindex[g.Topics[j]] != j {
+					continue
+				}
+				wg.Add(1)
+				go func(t string) {
+					defer wg.Done()
+					for r := 0; r < reps; r++ {
+						mux3.Serve(&mqtt.Message{Topic: t})
+					}
+				}(g.Topics[j])
+			}
+			wg.Wait()
+			for j := 0; j < nt; j++ {
+				if tindex[g.Topics[j]] != j {
+					continue
+				}
+				want := map[int]bool{}
+				for _, x := range mx.D[j] {
+					want[x] = true
+				}
+				for i := range mx.Regs {
+					n := got[[2]int{i + 1, j}]
+					exp := 0
+					if want[i+1] {
+						exp = reps
+					}
+					if n != exp {
+						m := filterWith(base, "dispatch-concurrent", "ServeMux.Serve (overlapping)", j, g.Topics[j])
+						m.Reg = i
+						m.Got, m.Want = fmt.Sprint(n), fmt.Sprint(exp)
+						add(m)
+					}
+				}
+			}
+			if n := got[[2]int{0, -1}]; n > 0 {
+				_ = n
+			}
 		}
 		// registration interleaved with dispatch: after every Handle call each topic is served (twice in a row); exactly
 		// the handlers registered SO FAR whose filter matches must run (the expectation restricted to that prefix)
